@@ -1,6 +1,8 @@
 (** Proofs about the trace reader model VNv.NvTrace: parsing a printed
-    instruction line / kernel file returns the serialised structure except for
-    the fields the reader drops. *)
+    instruction line / kernel file returns exactly the serialised structure
+    (round trip and injectivity of parse o print), for the reader as repaired
+    in the worktree: addresses with 0x prefix, opcode kept, uncompressed
+    address lists kept, registers R0..R255. *)
 From Coq Require Import List ZArith NArith String Ascii Bool Lia.
 From VNv Require Import NvTrace.
 Import ListNotations.
@@ -320,9 +322,9 @@ Lemma parse_inst_shape a b c (D : list string) op d (S : list string) rest :
       | Some sr =>
           match parse_mem rest with
           | None => None
-          | Some (w, cm, ad, s1, s2, imm) =>
-              Some (mkP (0, 0, 0) 0 (sscanf 16 32 a) (sscanf 16 64 b) (zlen D) dr None
-                        (zlen S) sr w cm ad s1 s2 imm)
+          | Some (w, cm, ad, addrs, s1, s2, imm) =>
+              Some (mkP (0, 0, 0) 0 (sscanf 16 32 a) (sscanf 16 64 b) (zlen D) dr (Some op)
+                        (zlen S) sr w cm ad addrs s1 s2 imm)
           end
       end
   end.
@@ -337,11 +339,14 @@ Proof.
   { change elems with ([a; b; c] ++ D ++ (op :: d :: S ++ rest)).
     apply scan_regs_at; reflexivity. }
   rewrite R1. destruct (mapM new_register D) as [dr|]; [|reflexivity].
+  assert (EO: nthz elems (3 + zlen D) = Some op).
+  { change elems with ((a :: b :: c :: D) ++ op :: d :: S ++ rest).
+    apply nthz_at. zl. }
   assert (E3: nthz elems (4 + zlen D) = Some d).
   { replace elems with ((a :: b :: c :: D ++ [op]) ++ d :: S ++ rest)
       by (unfold elems; simpl; rewrite <- app_assoc; reflexivity).
     apply nthz_at. zl. }
-  rewrite E3, Hd.
+  rewrite EO, E3, Hd.
   assert (R2: scan_regs elems (4 + zlen D + 1) (zlen S) = mapM new_register S).
   { replace elems with ((a :: b :: c :: D ++ [op; d]) ++ S ++ rest)
       by (unfold elems; simpl; rewrite <- app_assoc; reflexivity).
@@ -359,51 +364,74 @@ Qed.
 
 Definition fitsb32 (z : Z) : bool := fits 32 z.
 
+(** an address the reader's int64 field holds without wrap-around *)
+Definition addr_ok (a : Z) : bool := (0 <=? a) && (a <? 2 ^ 63).
+
 Definition valid_memb (m : option (Z * maddr)) : bool :=
   match m with
   | None => true
   | Some (w, a) =>
       negb (w =? 0) && fits 32 w &&
       match a with
-      | MList l => negb (match l with [] => true | _ => false end)
-      | MStride _ s => fits 32 s
-      | MDelta _ ds => forallb fitsb32 ds
+      | MList l => forallb addr_ok l
+      | MStride b s => addr_ok b && fits 32 s
+      | MDelta b ds => addr_ok b && forallb fitsb32 ds
       end
   end.
 
-Definition in_table (r : Z) : bool := existsb (Z.eqb r) reg_ids.
+(** R0 .. R255 *)
+Definition in_table (r : Z) : bool := (0 <=? r) && (r <=? 255).
 
-(** an instruction whose registers are in Go's register table and whose
-    numbers fit the Go field widths (PC int32, Mask int64, counts and widths
-    int32, stride and deltas int32, Immediate int64).  The opcode text and the
-    addresses are unconstrained; an uncompressed address list is not empty. *)
+(** white space in the sense of strings.Fields (ASCII) *)
+Definition is_space (c : ascii) : bool :=
+  let n := N_of_ascii c in ((n =? 32) || ((9 <=? n) && (n <=? 13)))%N.
+
+Fixpoint no_space (s : string) : bool :=
+  match s with
+  | EmptyString => true
+  | String c r => negb (is_space c) && no_space r
+  end.
+
+(** the opcode is one field of the line: not empty, no white space *)
+Definition op_ok (s : string) : bool :=
+  negb (match s with EmptyString => true | _ => false end) && no_space s.
+
+(** An instruction the format can carry and whose numbers fit the Go fields:
+    0 <= PC < 2^31 (int32), 0 <= Mask < 2^63 (int64), registers R0..R255,
+    fewer than 2^31 registers per list, opcode a non-empty token, memory
+    width a non-zero int32 (width 0 is written as "no memory part"),
+    addresses in 0 .. 2^63-1 (int64), stride and deltas int32, immediate
+    int64.  An uncompressed address list may be empty. *)
 Definition validb (i : inst) : bool :=
   (0 <=? i_pc i) && (i_pc i <? 2 ^ 31) &&
   (0 <=? i_mask i) && (i_mask i <? 2 ^ 63) &&
   forallb in_table (i_dests i) && forallb in_table (i_srcs i) &&
   (zlen (i_dests i) <? 2 ^ 31) && (zlen (i_srcs i) <? 2 ^ 31) &&
-  valid_memb (i_mem i) && fits 64 (i_imm i).
+  valid_memb (i_mem i) && fits 64 (i_imm i) && op_ok (i_op i).
 
 Definition valid (i : inst) : Prop := validb i = true.
 
 Definition exp_mem (m : option (Z * maddr)) (imm : Z) : mempart :=
   match m with
-  | None => (0, 0, 0, 0, [], imm)
-  | Some (w, MList _) => (w, 0, 0, 0, [], imm)
-  | Some (w, MStride _ s) => (w, 1, 0, s, [], imm)
-  | Some (w, MDelta _ ds) => (w, 2, 0, 0, ds, imm)
+  | None => (0, 0, 0, [], 0, [], imm)
+  | Some (w, MList l) => (w, 0, hd 0 l, l, 0, [], imm)
+  | Some (w, MStride b s) => (w, 1, b, [], s, [], imm)
+  | Some (w, MDelta b ds) => (w, 2, b, [], 0, ds, imm)
   end.
 
-(** the record extractInst builds from the printed line of [i] *)
+(** the record extractInst builds from the printed line of [i]: every field
+    of [i] is in it - the opcode text, the base address (modes 1, 2) or the
+    first address and the whole address list (mode 0) included *)
 Definition expected (i : inst) : pinst :=
-  let '(w, c, a, s1, s2, imm) := exp_mem (i_mem i) (i_imm i) in
-  mkP (0, 0, 0) 0 (i_pc i) (i_mask i) (zlen (i_dests i)) (i_dests i) None
-      (zlen (i_srcs i)) (i_srcs i) w c a s1 s2 imm.
+  let '(w, c, a, addrs, s1, s2, imm) := exp_mem (i_mem i) (i_imm i) in
+  mkP (0, 0, 0) 0 (i_pc i) (i_mask i) (zlen (i_dests i)) (i_dests i) (Some (i_op i))
+      (zlen (i_srcs i)) (i_srcs i) w c a addrs s1 s2 imm.
 
 Lemma in_table_In r : in_table r = true -> In r reg_ids.
 Proof.
-  unfold in_table. intros H. apply existsb_exists in H. destruct H as [x [Hx E]].
-  apply Z.eqb_eq in E. subst. exact Hx.
+  unfold in_table. intros H. apply andb_prop in H. destruct H as [H1 H2].
+  apply Z.leb_le in H1, H2. unfold reg_ids. apply in_map_iff.
+  exists (Z.to_nat r). split; [lia|]. apply in_seq. lia.
 Qed.
 
 Lemma forallb_in_table rs : forallb in_table rs = true -> Forall (fun r => In r reg_ids) rs.
@@ -425,6 +453,29 @@ Proof.
   apply andb_prop in H. destruct H as [H1 H2]. unfold fitsb32 in H1.
   rewrite atoi_decstr by (apply (fits_weaken 32); [lia | exact H1]).
   rewrite wrap32_fits by exact H1. rewrite IH by exact H2. reflexivity.
+Qed.
+
+(** the repaired address scanner reads a printed address back *)
+Lemma parse_addr_addrstr a : addr_ok a = true -> parse_addr (addrstr a) = a.
+Proof.
+  unfold addr_ok. intros H. apply andb_prop in H. destruct H as [H1 H2].
+  apply Z.leb_le in H1. apply Z.ltb_lt in H2.
+  unfold parse_addr, addrstr. simpl strip_0x. unfold numstr.
+  rewrite <- (sapp_nil_r (str_of_digits _)).
+  rewrite span_digits_str; auto; try lia.
+  2:{ apply digits_lt. lia. }
+  destruct (digits 16 (Z.to_N a)) eqn:D; [exfalso; eapply digits_nonempty; eauto|].
+  rewrite <- D, digits_eval by lia. rewrite Z2N.id by lia.
+  replace (a <? 2 ^ 64) with true by (symmetry; apply Z.ltb_lt; lia).
+  replace (a <? 2 ^ 63) with true by (symmetry; apply Z.ltb_lt; lia).
+  reflexivity.
+Qed.
+
+Lemma map_parse_addr l : forallb addr_ok l = true -> map parse_addr (map addrstr l) = l.
+Proof.
+  induction l as [|a l IH]; [reflexivity|]. simpl. intros H.
+  apply andb_prop in H. destruct H as [H1 H2].
+  rewrite parse_addr_addrstr by exact H1. rewrite IH by exact H2. reflexivity.
 Qed.
 
 Lemma fits_0 b : 1 <= b -> fits b 0 = true.
@@ -449,22 +500,27 @@ Proof.
     apply negb_true_iff in Hw0.
     destruct a as [l | b s | b ds].
     + (* uncompressed list *)
-      destruct l as [|a0 l]; [discriminate|].
       unfold parse_mem. simpl mem_toks. simpl app.
-      set (elems := decstr w :: decstr 0 :: addrstr a0 :: map addrstr l ++ [decstr imm]).
+      set (elems := decstr w :: decstr 0 :: map addrstr l ++ [decstr imm]).
       assert (E0: nthz elems 0 = Some (decstr w)) by (apply (nthz_at [] (decstr w)); reflexivity).
       assert (E1: nthz elems 1 = Some (decstr 0)) by (apply (nthz_at [decstr w] (decstr 0)); reflexivity).
-      assert (E2: nthz elems 2 = Some (addrstr a0))
-        by (apply (nthz_at [decstr w; decstr 0] (addrstr a0)); reflexivity).
-      rewrite E0, E1, E2. rewrite sscanf_decstr by (auto; lia). rewrite Hw0.
-      rewrite F0 by lia. rewrite sscanf_addrstr.
+      rewrite E0, E1. rewrite sscanf_decstr by (auto; lia). rewrite Hw0.
+      rewrite F0 by lia. change (0 =? 0) with true. cbv iota.
+      assert (L: zlen elems = 3 + zlen l) by (unfold elems; zl).
+      pose proof (zlen_nonneg l).
+      replace (2 <=? zlen elems - 1) with true by (symmetry; apply Z.leb_le; lia).
       replace (last elems EmptyString) with (decstr imm).
       2:{ unfold elems. symmetry.
-          change (decstr w :: decstr 0 :: addrstr a0 :: map addrstr l ++ [decstr imm])
-            with ((decstr w :: decstr 0 :: addrstr a0 :: map addrstr l) ++ [decstr imm]).
+          change (decstr w :: decstr 0 :: map addrstr l ++ [decstr imm])
+            with ((decstr w :: decstr 0 :: map addrstr l) ++ [decstr imm]).
           apply last_snoc. }
-      rewrite atoi_decstr by exact Hi. reflexivity.
+      rewrite atoi_decstr by exact Hi.
+      replace (firstn (List.length elems - 1 - 2) (skipn 2 elems)) with (map addrstr l).
+      2:{ unfold elems. simpl skipn. symmetry. apply firstn_exact.
+          simpl List.length. rewrite app_length, !map_length. simpl. lia. }
+      rewrite map_parse_addr by exact Ha. reflexivity.
     + (* base + stride *)
+      apply andb_prop in Ha. destruct Ha as [Hb Hs].
       unfold parse_mem. simpl mem_toks. simpl app.
       set (elems := [decstr w; decstr 1; addrstr b; decstr s; decstr imm]).
       assert (E0: nthz elems 0 = Some (decstr w)) by reflexivity.
@@ -472,10 +528,11 @@ Proof.
       assert (E2: nthz elems 2 = Some (addrstr b)) by reflexivity.
       assert (E3: nthz elems 3 = Some (decstr s)) by reflexivity.
       rewrite E0, E1, E2, E3. rewrite !sscanf_decstr by (auto; try lia; reflexivity).
-      rewrite Hw0, sscanf_addrstr.
+      rewrite Hw0, parse_addr_addrstr by exact Hb.
       change (last elems EmptyString) with (decstr imm).
       rewrite atoi_decstr by exact Hi. reflexivity.
     + (* base + deltas *)
+      apply andb_prop in Ha. destruct Ha as [Hb Hd].
       unfold parse_mem. simpl mem_toks. simpl app.
       set (elems := decstr w :: decstr 2 :: addrstr b :: map decstr ds ++ [decstr imm]).
       assert (E0: nthz elems 0 = Some (decstr w)) by (apply (nthz_at [] (decstr w)); reflexivity).
@@ -483,9 +540,9 @@ Proof.
       assert (E2: nthz elems 2 = Some (addrstr b))
         by (apply (nthz_at [decstr w; decstr 2] (addrstr b)); reflexivity).
       rewrite E0, E1, E2. rewrite !sscanf_decstr by (auto; try lia; reflexivity).
-      rewrite Hw0, sscanf_addrstr. simpl ((2 =? 1)). simpl ((2 =? 2)). cbv iota.
-      assert (L: zlen elems = 4 + zlen ds).
-      { unfold elems. zl. }
+      rewrite Hw0, parse_addr_addrstr by exact Hb.
+      change (2 =? 0) with false. change (2 =? 1) with false. change (2 =? 2) with true. cbv iota.
+      assert (L: zlen elems = 4 + zlen ds) by (unfold elems; zl).
       pose proof (zlen_nonneg ds).
       replace (3 <=? zlen elems - 1) with true by (symmetry; apply Z.leb_le; lia).
       replace (last elems EmptyString) with (decstr imm).
@@ -497,7 +554,7 @@ Proof.
       replace (firstn (List.length elems - 1 - 3) (skipn 3 elems)) with (map decstr ds).
       2:{ unfold elems. simpl skipn. symmetry. apply firstn_exact.
           simpl List.length. rewrite app_length, !map_length. simpl. lia. }
-      rewrite map_atoi_decstr by exact Ha. reflexivity.
+      rewrite map_atoi_decstr by exact Hd. reflexivity.
   - unfold parse_mem. simpl mem_toks. simpl app.
     set (elems := [decstr 0; decstr imm]).
     assert (E0: nthz elems 0 = Some (decstr 0)) by reflexivity.
@@ -506,23 +563,20 @@ Proof.
     rewrite atoi_decstr by exact Hi. reflexivity.
 Qed.
 
-(** Parsing the printed line of a valid instruction returns [expected i]:
-    PC, Mask, DestNum/DestRegs, SrcNum/SrcRegs, MemWidth, AddressCompress,
-    the stride (mode 1), the deltas (mode 2) and the Immediate are those of
-    [i]. *)
-Theorem parse_print_roundtrip (i : inst) :
-  valid i -> parse_inst (print_inst i) = Some (expected i).
+(** Parsing the printed line of a valid instruction returns [expected i],
+    the record that holds every field of [i]. *)
+Theorem parse_print_roundtrip : forall i, valid i -> parse_inst (print_inst i) = Some (expected i).
 Proof.
-  unfold valid, validb. intros H.
+  intros i. unfold valid, validb. intros H.
   repeat (apply andb_prop in H; let H' := fresh "V" in destruct H as [H H']).
   rename H into Vpc0.
-  apply Z.leb_le in Vpc0. apply Z.ltb_lt in V7. apply Z.leb_le in V6. apply Z.ltb_lt in V5.
-  apply forallb_in_table in V4. apply forallb_in_table in V3.
+  apply Z.leb_le in Vpc0. apply Z.ltb_lt in V8. apply Z.leb_le in V7. apply Z.ltb_lt in V6.
+  apply forallb_in_table in V5. apply forallb_in_table in V4.
   unfold print_inst. simpl app.
   rewrite parse_inst_shape.
   - rewrite !mapM_regstr by assumption.
     rewrite parse_mem_print by assumption.
-    unfold expected. destruct (exp_mem (i_mem i) (i_imm i)) as [[[[[w c] a] s1] s2] imm].
+    unfold expected. destruct (exp_mem (i_mem i) (i_imm i)) as [[[[[[w c] a] addrs] s1] s2] imm].
     rewrite !zlen_map.
     rewrite sscanf_hexstr by (change (32 - 1) with 31; lia).
     rewrite sscanf_hexstr by (change (64 - 1) with 63; lia).
@@ -532,105 +586,58 @@ Proof.
 Qed.
 
 (* ------------------------------------------------------------------ *)
-(** * What the reader drops *)
+(** * Exactness: the parsed record determines the serialised instruction *)
 
-Definition forget_mem (m : option (Z * maddr)) : option (Z * maddr) :=
-  match m with
-  | None => None
-  | Some (w, MList _) => Some (w, MList [0])
-  | Some (w, MStride _ s) => Some (w, MStride 0 s)
-  | Some (w, MDelta _ ds) => Some (w, MDelta 0 ds)
-  end.
-
-(** the instruction with the opcode text, every address and the number of
-    uncompressed addresses erased *)
-Definition forget (i : inst) : inst :=
-  mkInst (i_pc i) (i_mask i) (i_dests i) EmptyString (i_srcs i) (forget_mem (i_mem i)) (i_imm i).
-
-Lemma forget_valid i : valid i -> valid (forget i).
+Lemma valid_mem_of i : valid i -> valid_memb (i_mem i) = true.
 Proof.
-  unfold valid, validb. destruct i as [pc mask ds op ss m imm]. simpl.
-  destruct m as [[w [l | b s | b dl]]|]; simpl; auto.
-  destruct l; simpl; auto.
-  intros H. rewrite !andb_false_r in H. simpl in H. discriminate H.
+  unfold valid, validb. intros H.
+  repeat (apply andb_prop in H; let H' := fresh "V" in destruct H as [H H']).
+  assumption.
 Qed.
 
-Lemma expected_forget i : expected (forget i) = expected i.
+Lemma expected_inj i j :
+  valid_memb (i_mem i) = true -> valid_memb (i_mem j) = true ->
+  expected i = expected j -> i = j.
 Proof.
-  destruct i as [pc mask ds op ss m imm]. unfold expected, forget. simpl.
-  destruct m as [[w [l | b s | b dl]]|]; reflexivity.
+  destruct i as [pc mk ds op ss m im], j as [pc' mk' ds' op' ss' m' im'].
+  unfold expected. cbn [i_pc i_mask i_dests i_op i_srcs i_mem i_imm].
+  intros Vi Vj H.
+  destruct m as [[w [l | b s | b dl]]|], m' as [[w' [l' | b' s' | b' dl']]|];
+    cbn [exp_mem] in H; inversion H; subst; try reflexivity;
+    cbn [valid_memb] in Vi, Vj;
+    try (rewrite Z.eqb_refl in Vi; discriminate Vi);
+    try (rewrite Z.eqb_refl in Vj; discriminate Vj).
 Qed.
 
-(** OpCode stays nil, MemAddress stays 0, and neither the opcode text nor any
-    address (nor how many addresses an uncompressed list had) influences the
-    parsed record. *)
-Theorem parse_print_dropped (i : inst) :
-  valid i ->
-  (exists p, parse_inst (print_inst i) = Some p /\ p_op p = None /\ p_memaddr p = 0) /\
-  parse_inst (print_inst (forget i)) = parse_inst (print_inst i).
+(** parse o print is injective on valid instructions *)
+Theorem parse_print_exact : forall i j, valid i -> valid j ->
+  parse_inst (print_inst i) = parse_inst (print_inst j) -> i = j.
 Proof.
-  intros V. split.
-  - exists (expected i). split; [apply parse_print_roundtrip; exact V|].
-    unfold expected. destruct (i_mem i) as [[w [l | b s | b dl]]|]; simpl; auto.
-  - rewrite (parse_print_roundtrip _ (forget_valid _ V)), (parse_print_roundtrip _ V).
-    rewrite expected_forget. reflexivity.
+  intros i j Vi Vj H.
+  rewrite (parse_print_roundtrip _ Vi), (parse_print_roundtrip _ Vj) in H.
+  injection H as H. apply expected_inj; auto using valid_mem_of.
 Qed.
 
-(** the property at full strength: the parsed record determines the
-    serialised instruction *)
-Definition parse_print_exact : Prop :=
-  forall i j, valid i -> valid j ->
-    parse_inst (print_inst i) = parse_inst (print_inst j) -> i = j.
-
-Definition wit_mov : inst := mkInst 16 4294967295 [1] "MOV" [2] None 0.
-Definition wit_fadd : inst := mkInst 16 4294967295 [1] "FADD" [2] None 0.
-
-(** two instructions that differ only in the opcode parse to the same record *)
-Theorem parse_print_exact_refuted : ~ parse_print_exact.
-Proof.
-  intros H.
-  assert (E: wit_mov = wit_fadd).
-  { apply H; vm_compute; reflexivity. }
-  discriminate E.
-Qed.
-
-Definition wit_ld1 : inst :=
-  mkInst 160 4294967295 [4] "LDG.E" [4] (Some (4, MStride 140397977996800 4)) 0.
-Definition wit_ld2 : inst :=
-  mkInst 160 4294967295 [4] "LDG.E" [4] (Some (4, MStride 140397977800192 4)) 0.
-
-(** ... and so do two loads that differ only in the address *)
-Theorem parse_print_exact_refuted_addr :
-  valid wit_ld1 /\ valid wit_ld2 /\ wit_ld1 <> wit_ld2 /\
-  parse_inst (print_inst wit_ld1) = parse_inst (print_inst wit_ld2).
-Proof.
-  repeat split; try (vm_compute; reflexivity). discriminate.
-Qed.
-
-Definition wit_st1 : inst :=
-  mkInst 240 4294967295 [] "STG.E" [6; 9] (Some (4, MList [140397978197504; 140397978197508])) 0.
-Definition wit_st2 : inst :=
-  mkInst 240 4294967295 [] "STG.E" [6; 9] (Some (4, MList [4096])) 0.
-
-(** ... and two stores whose uncompressed address lists differ in content and length *)
-Theorem parse_print_exact_refuted_list :
-  valid wit_st1 /\ valid wit_st2 /\ wit_st1 <> wit_st2 /\
-  parse_inst (print_inst wit_st1) = parse_inst (print_inst wit_st2).
-Proof.
-  repeat split; try (vm_compute; reflexivity). discriminate.
-Qed.
-
-(** the hypotheses of the round trip hold for a non-trivial instruction, and
+(** the hypotheses of the round trip hold for non-trivial instructions, and
     the conclusion is what one reads off the sample file *)
 Example roundtrip_example :
-  let i := mkInst 160 4294967295 [4; 255] "LDG.E" [4; 31; 0]
+  let i := mkInst 160 4294967295 [4; 255] "LDG.E" [4; 31; 200]
                   (Some (4, MDelta 140397977996800 [4; -8; 2147483647])) (-3) in
   valid i /\
-  print_inst i = ["00a0"; "ffffffff"; "2"; "R4"; "R255"; "LDG.E"; "3"; "R4"; "R31"; "R0";
+  print_inst i = ["00a0"; "ffffffff"; "2"; "R4"; "R255"; "LDG.E"; "3"; "R4"; "R31"; "R200";
                   "4"; "2"; "0x7fb0f39b0e00"; "4"; "-8"; "2147483647"; "-3"]%string /\
   parse_inst (print_inst i) =
-    Some (mkP (0, 0, 0) 0 160 4294967295 2 [4; 255] None 3 [4; 31; 0] 4 2 0 0
-              [4; -8; 2147483647] (-3)).
+    Some (mkP (0, 0, 0) 0 160 4294967295 2 [4; 255] (Some "LDG.E"%string) 3 [4; 31; 200] 4 2
+              140397977996800 [] 0 [4; -8; 2147483647] (-3)).
+Proof. repeat split; vm_compute; reflexivity. Qed.
+
+Example roundtrip_example_list :
+  let i := mkInst 240 65535 [] "STG.E" [6; 9]
+                  (Some (4, MList [140397978197504; 140397978197508; 0])) 0 in
+  valid i /\
+  parse_inst (print_inst i) =
+    Some (mkP (0, 0, 0) 0 240 65535 0 [] (Some "STG.E"%string) 2 [6; 9] 4 0
+              140397978197504 [140397978197504; 140397978197508; 0] 0 [] 0).
 Proof. repeat split; vm_compute; reflexivity. Qed.
 
 (* ------------------------------------------------------------------ *)
@@ -676,14 +683,16 @@ Proof. reflexivity. Qed.
 Lemma read_insts_step f cnt tb wid st :
   read_insts (S f) cnt tb wid st =
   if cnt <=? 0 then Some ([], st)
-  else let st' := snd (move_next st) in
-       match parse_inst (line_toks (fst st')) with
-       | None => None
-       | Some p => match read_insts f (cnt - 1) tb wid st' with
-                   | None => None
-                   | Some (ps, st'') => Some (stamp tb wid p :: ps, st'')
-                   end
-       end.
+  else let (ok, st') := move_next st in
+       if negb ok then None
+       else
+         match parse_inst (line_toks (fst st')) with
+         | None => None
+         | Some p => match read_insts f (cnt - 1) tb wid st' with
+                     | None => None
+                     | Some (ps, st'') => Some (stamp tb wid p :: ps, st'')
+                     end
+         end.
 Proof. reflexivity. Qed.
 
 Lemma read_insts_print tb wid : forall (is : list inst) fuel cur tail,
@@ -701,7 +710,7 @@ Proof.
     replace (zlen (i :: is) <=? 0) with false by (symmetry; apply Z.leb_gt; rewrite zlen_cons; lia).
     simpl map. simpl app.
     rewrite move_next_nonblank by apply is_blank_inst.
-    cbv zeta. simpl snd. simpl fst. simpl line_toks.
+    simpl negb. cbv iota. simpl fst. simpl line_toks.
     rewrite parse_print_roundtrip by exact Hi.
     replace (zlen (i :: is) - 1) with (zlen is) by (rewrite zlen_cons; lia).
     destruct (IH f (LInst (print_inst i)) tail) as [c Hc]; [simpl in Hf; lia | exact Hv |].
@@ -995,6 +1004,71 @@ Proof.
   rewrite !read_blocks_blank by reflexivity.
   rewrite read_blocks_print; auto.
   pose proof (print_blocks_length (k_blocks k)). lia.
+Qed.
+
+(** ** parse o print is injective on valid kernels *)
+
+Lemma map_inj_Forall {A B} (f g : A -> B) (P : A -> Prop) :
+  (forall x y, P x -> P y -> f x = g y -> x = y) ->
+  forall l l', Forall P l -> Forall P l' -> map f l = map g l' -> l = l'.
+Proof.
+  intros Hf. induction l as [|x l IH]; intros [|y l'] Hl Hl' H; simpl in H; try discriminate.
+  - reflexivity.
+  - inversion Hl; subst. inversion Hl'; subst. injection H as E1 E2.
+    f_equal; auto.
+Qed.
+
+Lemma forallb_Forall {A} (f : A -> bool) l : forallb f l = true -> Forall (fun x => f x = true) l.
+Proof. intros H. apply Forall_forall. rewrite forallb_forall in H. exact H. Qed.
+
+Lemma stamp_expected_inj tb w tb' w' i j :
+  stamp tb w (expected i) = stamp tb' w' (expected j) -> expected i = expected j.
+Proof.
+  unfold expected.
+  destruct (exp_mem (i_mem i) (i_imm i)) as [[[[[[a1 a2] a3] a4] a5] a6] a7].
+  destruct (exp_mem (i_mem j) (i_imm j)) as [[[[[[b1 b2] b3] b4] b5] b6] b7].
+  unfold stamp. simpl. intros H. inversion H. reflexivity.
+Qed.
+
+Lemma expected_warp_inj tb tb' w w' :
+  valid_warpb w = true -> valid_warpb w' = true ->
+  expected_warp tb w = expected_warp tb' w' -> w = w'.
+Proof.
+  unfold valid_warpb, expected_warp. destruct w as [id is], w' as [id' is']. simpl.
+  intros V V' H.
+  apply andb_prop in V. destruct V as [_ V]. apply andb_prop in V'. destruct V' as [_ V'].
+  injection H as Hid _ Hm. subst id'. f_equal.
+  eapply (map_inj_Forall _ _ (fun i => validb i = true)); [| apply forallb_Forall; exact V
+                                                         | apply forallb_Forall; exact V' | exact Hm].
+  intros x y Vx Vy E. apply stamp_expected_inj in E.
+  apply expected_inj; auto using valid_mem_of.
+Qed.
+
+Lemma expected_block_inj b b' :
+  valid_blockb b = true -> valid_blockb b' = true ->
+  expected_block b = expected_block b' -> b = b'.
+Proof.
+  unfold valid_blockb, expected_block. destruct b as [id ws], b' as [id' ws']. simpl.
+  intros V V' H.
+  apply andb_prop in V. destruct V as [_ V]. apply andb_prop in V'. destruct V' as [_ V'].
+  injection H as Hid Hm. subst id'. f_equal.
+  eapply (map_inj_Forall _ _ (fun w => valid_warpb w = true)); [| apply forallb_Forall; exact V
+                                                              | apply forallb_Forall; exact V' | exact Hm].
+  intros x y Vx Vy E. eapply expected_warp_inj; eauto.
+Qed.
+
+Theorem parse_print_kernel_exact : forall k1 k2, valid_kernel k1 -> valid_kernel k2 ->
+  parse_kernel (print_kernel k1) = parse_kernel (print_kernel k2) -> k1 = k2.
+Proof.
+  intros k1 k2 V1 V2 H.
+  rewrite (parse_print_kernel_roundtrip _ V1), (parse_print_kernel_roundtrip _ V2) in H.
+  injection H as Hh Hb.
+  unfold valid_kernel, valid_kernelb in V1, V2.
+  apply andb_prop in V1. destruct V1 as [_ V1]. apply andb_prop in V2. destruct V2 as [_ V2].
+  destruct k1 as [h1 b1], k2 as [h2 b2]. simpl in *. subst h2. f_equal.
+  eapply (map_inj_Forall _ _ (fun b => valid_blockb b = true)); [| apply forallb_Forall; exact V1
+                                                               | apply forallb_Forall; exact V2 | exact Hb].
+  intros x y Vx Vy E. apply expected_block_inj; auto.
 Qed.
 
 (** the hypotheses are satisfiable by a kernel with a block of three warps
